@@ -99,8 +99,9 @@ func c06Pipe() (*c06Conn, *c06Conn) {
 }
 
 type c06Result struct {
-	err error
-	pk  p2pcrypto.PubKey
+	err      error
+	pk       p2pcrypto.PubKey
+	panicked bool
 }
 
 // honest parties in goroutines; the pipe is closed when the peer script ends so that nobody hangs
@@ -108,8 +109,14 @@ func c06RunResponder(conn *c06Conn, sk p2pcrypto.PrivKey) <-chan c06Result {
 	ch := make(chan c06Result, 1)
 	go func() {
 		_ = conn.c.SetDeadline(time.Now().Add(10 * time.Second))
+		defer func() {
+			if p := recover(); p != nil {
+				ch <- c06Result{err: fmt.Errorf("PANIC: %v", p), panicked: true}
+				_ = conn.c.Close()
+			}
+		}()
 		pk, err := ResponseUsingReaderWriter(context.Background(), zap.NewNop(), conn.r, conn.w, sk)
-		ch <- c06Result{err, pk}
+		ch <- c06Result{err: err, pk: pk}
 		_ = conn.c.Close()
 	}()
 	return ch
@@ -119,6 +126,12 @@ func c06RunRequester(conn *c06Conn, sk p2pcrypto.PrivKey, target p2pcrypto.PubKe
 	ch := make(chan c06Result, 1)
 	go func() {
 		_ = conn.c.SetDeadline(time.Now().Add(10 * time.Second))
+		defer func() {
+			if p := recover(); p != nil {
+				ch <- c06Result{err: fmt.Errorf("PANIC: %v", p), panicked: true}
+				_ = conn.c.Close()
+			}
+		}()
 		err := RequestUsingReaderWriter(context.Background(), zap.NewNop(), conn.r, conn.w, sk, target)
 		ch <- c06Result{err: err}
 		_ = conn.c.Close()
@@ -232,6 +245,11 @@ type c06Outcome struct {
 
 // the honest responder reported `got`: fine only if the adversary holds its private half in this session
 func c06JudgeResponder(o *c06Outcome, res c06Result, k *c06Keys, holds ...p2pcrypto.PrivKey) {
+	if res.panicked {
+		o.violation = "honest-party-crashed"
+		o.msg = fmt.Sprintf("attack %q: the responder did not reach a verdict, it panicked: %v", o.label, res.err)
+		return
+	}
 	if res.err != nil {
 		return
 	}
@@ -305,7 +323,10 @@ func c06AttackRequester(k *c06Keys, label string, script func(cm *c06Conn, o *c0
 	script(cm, &o)
 	_ = cm.c.Close()
 	res := <-done
-	if res.err == nil {
+	if res.panicked {
+		o.violation = "honest-party-crashed"
+		o.msg = fmt.Sprintf("attack %q: the requester did not reach a verdict, it panicked: %v", label, res.err)
+	} else if res.err == nil {
 		o.violation = "requester-accepted-impostor"
 		o.msg = fmt.Sprintf("attack %q: the requester completed the handshake with a peer that does not hold the targeted account key", label)
 	}
@@ -628,6 +649,61 @@ func c06Catalogue(k *c06Keys, rt *rapid.T) []c06Outcome {
 		}
 		_ = cm.w.WriteMsg(&BoxEnvelope{Box: make([]byte, c06Limit+10)})
 	}))
+	// 5b. hostile length prefixes in place of the frame the honest party waits for (the largest lengths a varint can
+	// carry, lengths around 2^31 / 2^32 / 2^63): an error, never a crash
+	hostile := [][]byte{
+		{0xff, 0xff, 0xff, 0xff, 0xff, 0xff, 0xff, 0xff, 0xff, 0x01}, // 2^64-1
+		{0x80, 0x80, 0x80, 0x80, 0x80, 0x80, 0x80, 0x80, 0x80, 0x01}, // 2^63
+		{0xff, 0xff, 0xff, 0xff, 0xff, 0xff, 0xff, 0xff, 0x7f},       // 2^63-1
+		{0x80, 0x80, 0x80, 0x80, 0x10},                               // 2^32
+		{0xff, 0xff, 0xff, 0xff, 0x07},                               // 2^31-1
+	}
+	for hi, h := range hostile {
+		h := h
+		for step := 0; step < 3; step++ { // towards the responder: instead of hello / authenticate / acknowledge
+			step := step
+			out = append(out, c06AttackResponder(k, fmt.Sprintf("hostile-length-prefix/%d/responder-step%d", hi, step), func(cm *c06Conn, o *c06Outcome) {
+				if step >= 1 {
+					if cm.sendHello(honestPub) != nil {
+						return
+					}
+					b, err := cm.readHello()
+					if err != nil {
+						return
+					}
+					if step >= 2 {
+						ab := c06Shared(b, honestPriv)
+						aB := c06Shared(c06MontPub(k.B.GetPublic()), honestPriv)
+						sig, _ := k.M.Sign(ab[:])
+						if cm.sendBox(c06BoxKey(ab, aB), &c06NonceAuth, &RequesterAuthenticatePayload{RequesterAccountId: c06PubBytes(k.M.GetPublic()), RequesterAccountSig: sig}) != nil {
+							return
+						}
+						if _, err := cm.readBoxRaw(); err != nil {
+							return
+						}
+					}
+				}
+				_, _ = cm.c.Write(h)
+			}))
+		}
+		for step := 0; step < 2; step++ { // towards the requester: instead of hello / accept
+			step := step
+			out = append(out, c06AttackRequester(k, fmt.Sprintf("hostile-length-prefix/%d/requester-step%d", hi, step), func(cm *c06Conn, o *c06Outcome) {
+				if _, err := cm.readHello(); err != nil {
+					return
+				}
+				if step >= 1 {
+					if cm.sendHello(honestPub) != nil {
+						return
+					}
+					if _, err := cm.readBoxRaw(); err != nil {
+						return
+					}
+				}
+				_, _ = cm.c.Write(h)
+			}))
+		}
+	}
 	// 6. foreign key types with a valid proof: recorded, the statement does not forbid a proven foreign key
 	// (the responder either refuses or reports exactly the proven key)
 	// 7. adversary in the responder seat (honest requester A targets B)
